@@ -232,10 +232,7 @@ theorem writeMsg_ok (s : MsgState) (e : Entropy) (hp : NoFailingProducers s) (hb
       (defaultHeaders s e).bMixed = s.bMixed ∧ (defaultHeaders s e).bRelated = s.bRelated ∧
       (defaultHeaders s e).bAlt = s.bAlt := by
     intro s
-    unfold defaultHeaders setGenHeader
-    simp only []
-    repeat' split
-    all_goals simp
+    exact ⟨rfl, rfl, rfl, rfl, rfl, rfl, rfl⟩
   obtain ⟨d1, d2, d3, d4, d5, d6, d7⟩ := hd s
   have hb' : GoodBoundaries (defaultHeaders s e) := by
     unfold GoodBoundaries; rw [d4, d5, d6, d7]; exact hb
